@@ -58,10 +58,23 @@ func c04run(out *rec.Out, c c04case, rng *rec.Rng, stats map[string]int) {
 		nOut++
 	}
 	en := g.Add("endEvent", "end", "")
+	drng := rng.Fork()
 	for j := 0; j < nOut; j++ {
 		b := g.Add("task", fmt.Sprintf("B%d", j), "")
 		if j == c.defPos {
-			f := g.Connect(x, b, nil)
+			// a default flow may carry a condition of its own; it is ignored (the flow is taken because it is the default)
+			var dc *eng.Cond
+			switch drng.Intn(3) {
+			case 1:
+				vars["bd"] = 0
+				dc = &eng.Cond{Op: "eq", Var: "bd", K: 1}
+				stats["default_with_false_condition"]++
+			case 2:
+				vars["bd"] = 1
+				dc = &eng.Cond{Op: "eq", Var: "bd", K: 1}
+				stats["default_with_true_condition"]++
+			}
+			f := g.Connect(x, b, dc)
 			x.Default = f.ID
 		} else {
 			v := fmt.Sprintf("b%d", ci)
